@@ -35,6 +35,7 @@ def addOf : LOp → Option Nat → Option (K × Nat)
   | .nbrInit _, some c => some (.nbr, c)
   | .nbwInit _, some c => some (.nbw, c)
   | .http _ _ _, some c => some (.http, c)
+  | .https _ _ _ _, some c => some (.http, c)
   | _, _ => none
 
 /-- the object a release call removes -/
@@ -200,11 +201,14 @@ theorem delta {t t' : Tables} {c0 : LOp} {rc : Rc} {o : Option Nat} (hev : Ev t 
     have hown : Run.ownW x = none := by simp [Run.ownW, hc]
     cases k <;> simp [Vis, addOf, delOf, hown, hid]
     grind
-  | http a l s x hd c1 k1 hk hfc hfx =>
+  | http c0 a l s x hd c1 ho k1 hc0 hk hfc hfx =>
     intro k c
     have hu := unownedC_of_fresh ht hfc
-    cases k <;> simp [Vis, addOf, delOf]
-    all_goals grind
+    rcases hc0 with rfl | ⟨hl, rfl⟩
+    · cases k <;> simp [Vis, addOf, delOf]
+      all_goals grind
+    · cases k <;> simp [Vis, addOf, delOf]
+      all_goals grind
   | readCancel c1 hun =>
     intro k c
     cases k <;> simp [Vis, addOf, delOf]
